@@ -189,7 +189,7 @@ def _world(repo, fs, log, fail_build=False, lib_has=None):
         log.append(("compile", {"decl": decl, "objects": objs, "names": list(names), "module": module_name, "options": options, "cache_dir": str(cache_dir),
                                 "extra": extra, "verbose": verbose, "debug": debug, "libraries": libraries, "visualise": visualise}))
         if fail_build:
-            raise Raised("RuntimeError: the C compiler failed")
+            raise Raised(fail_build if isinstance(fail_build, str) else "RuntimeError: the C compiler failed")
         d = str(cache_dir)
         fs[f"{d}/{module_name}.so"] = "binary"
         fs[f"{d}/{module_name}.c.cached"] = "ready"
@@ -395,6 +395,23 @@ def jit_flow(repo, res):
                          "the next request builds afresh instead of waiting", loc)
             if f"/cache/{module}.c.cached" in fs6:
                 res.fail(key, "a failing build leaves a ready marker", loc)
+        # ---- a build that ends in an exception deriving from BaseException: UFL's ComplexComparisonError (a comparison of complex values found
+        # during code generation), an interrupt of the builder: the lock must be released all the same
+        # (an interrupt of the builder is the "killed" case of C15: later requests may also raise within the timeout; not demanded here)
+        for what in ("ComplexComparisonError: Ordering undefined for complex values.",):
+            key = f"{f.key}:failing-build:{what.split(':')[0]}"
+            res.ob(key)
+            fs8, log8 = {}, []
+            try:
+                out8 = call(fs8, log8, fail=what)
+                res.fail(key, f"a build ending in {what.split(':')[0]} returns {out8!r} instead of raising", loc)
+            except Raised as e:
+                if not e.what.startswith(what.split(":")[0]):
+                    res.fail(key, f"a build ending in {what.split(':')[0]} raises {e.what} instead", loc)
+                elif f"/cache/{module}.c" in fs8 or f"/cache/{module}.c.failed" not in fs8:
+                    res.fail(key, f"after a build that ended in {what.split(':')[0]} (an exception deriving from BaseException, not from Exception) the cache holds "
+                             f"{sorted(k for k in fs8 if not k.startswith('__'))}: the lock <module>.c is not renamed to <module>.c.failed, so the next request for the same "
+                             "objects waits for the timeout instead of building afresh (and reporting the same error)", loc, props=("C15",))
         # ---- a module that lacks a requested object
         key = f"{f.key}:missing-object"
         res.ob(key)
